@@ -36,6 +36,7 @@ class World20(World):
         self.xtensors: list = []
         self.attrs: list = []
         self.lazy_evals = 0
+        self.cyclic = False
 
     def X(self, i):  # noqa: N802
         return self._pick(self.xtensors, i)
@@ -46,7 +47,49 @@ class World20(World):
     def F(self, i):  # noqa: N802
         return self._pick(self.functions, i)
 
+    def has_attribute_cycle(self) -> bool:
+        """A graph that is reachable from the attributes of its own nodes (public accessors only)."""
+        edges = {}
+        for g in self.graphs:
+            subs = []
+            try:
+                for n in g:
+                    for a in n.attributes.values():
+                        if isinstance(a, ir.Attr) and not a.is_ref():
+                            if a.type == ir.AttributeType.GRAPH:
+                                subs.append(a.value)
+                            elif a.type == ir.AttributeType.GRAPHS:
+                                subs.extend(a.value)
+            except Exception:  # noqa: BLE001
+                pass
+            edges[id(g)] = subs
+        state = {}
+
+        def visit(g):
+            k = id(g)
+            if state.get(k) == 1:
+                return True
+            if state.get(k) == 2:
+                return False
+            state[k] = 1
+            for s in edges.get(k, ()):
+                if visit(s):
+                    return True
+            state[k] = 2
+            return False
+        return any(visit(g) for g in self.graphs)
+
     def apply(self, op: list) -> Result:
+        if self.cyclic:
+            # repr() of a graph that contains itself recurses without bound, and the journal's
+            # detail strings call repr(): such IR is out of scope, the history ends here in every run
+            return Result(skipped=True)
+        res = self._apply(op)
+        if not res.skipped and self.has_attribute_cycle():
+            self.cyclic = True
+        return res
+
+    def _apply(self, op: list) -> Result:
         fn = XOPS.get(op[0]) or OPS[op[0]]
         try:
             thunk = fn(self, *op[1:])
@@ -63,6 +106,7 @@ class World20(World):
         """Observables of the extension pools (cross-world comparable)."""
         return {
             "lazy_evals": self.lazy_evals,
+            "cyclic": self.cyclic,
             "xtensors": tuple((type(t).__name__, t.name, str(t.dtype), tuple(t.shape)) for t in self.xtensors),
             "attrs": tuple((a.name, str(a.type), a.ref_attr_name, a.doc_string) for a in self.attrs),
             "pools": (len(self.values), len(self.nodes), len(self.graphs), len(self.functions), len(self.models)),
@@ -382,7 +426,7 @@ def _j_exit(w, *a):
 # generator
 # =============================================================================================
 XWEIGHTS = {
-    "n_domain": 1, "n_version": 1, "n_overload": 1, "f_name": 1, "f_domain": 1, "f_overload": 1, "v_merge": 2,
+    "n_domain": 1, "n_version": 1, "n_overload": 1, "f_name": 2, "f_domain": 2, "f_overload": 2, "v_merge": 2,
     "model": 0.7, "g_clone": 0.2, "tensor": 3, "v_const_x": 2, "val_x": 1, "attr": 3.5, "attr_setitem": 2,
     "attr_add_x": 1.5, "attr_update": 1, "f_attr_setitem": 0.8, "node_x": 1.5, "node_attrs": 1.2, "func_x": 0.8,
     "kw_io_append": 0.6, "kw_io_insert": 0.5, "kw_io_pop": 0.5, "kw_io_remove": 0.5, "kw_io_extend": 0.5, "kw_reg": 0.5,
@@ -397,7 +441,7 @@ class Gen20:
 
     def __init__(self, rng, w: World20, hostile: float, p_ext: float, node_in_graph: bool):
         self.rng, self.w, self.p_ext, self.node_in_graph = rng, w, p_ext, node_in_graph
-        self.g = Gen(rng, w, hostile, avoid={"owned_node_outputs"})
+        self.g = Gen(rng, w, hostile, weights={"n_op": 1.5, "func": 1.2}, avoid={"owned_node_outputs"})
         self.queue: list = []
         self._names = list(XWEIGHTS)
         self._wts = [XWEIGHTS[n] for n in self._names]
